@@ -70,17 +70,16 @@ var fixedAddxyZ = []struct {
 	k int64 // P = k·G, b = canonical affine limbs of P
 	z string
 }{
-	{1, "82747bb09eefb1810c6ead20dab2ef4704b2fbdb45e6fa3b3f09fa4defdab669"},
 	{1, "73be586e1c244fde6da38b6edd190db4a0d32c46a785684d0f573f95c060cc24"},
 	{1, "d4d48894a130e4b865768f8f6caa5c69fed10c1feda4fa64504ca37445b1e94d"},
 	{1, "e96b6cb84271cde45ab072fbe5c421563f5bb6ad7d24bf1bc1bf07328a8a9c4e"},
 }
 
 // x coordinates whose lift has a non-canonical raw Sqrt output
-var fixedLiftX = []string{"3e26d", "688f6", "cde50", "d8141"} // 254573, 428278, 843344, 885057
-var fixedLiftKeys = []int64{41192, 222725, 435784}            // x of k·G
+var fixedLiftX = []string{"20f105", "28b871", "29ceb4", "327dde"} // found by a counter search from 2000003 with the real Sqrt
+var fixedLiftKeys = []int64{}                                  // x of k·G (none kept; the run-time search supplies them)
 // k with BaseMultiplyAdd(k·G, k) running into the doubling branch of AddXY on a non-canonical s2
-var fixedBMA = []int64{83421, 225444, 610441}
+var fixedBMA = []int64{1014079, 1341451, 1346054} // found by a counter search from 1000003 with the real ECmultGen/Mul
 
 func emitAddxyWitness(g *vlib.Rng, p pt, b xy, z fe, which, origin string, denormA bool) {
 	a := maybeDenormA(g, jacZ(p, z), denormA)
